@@ -106,6 +106,8 @@ func checkC05(c *Ctx) {
 // derive a core (With), marshal fields, run a hook or touch an encoder/sink.
 func c5EnabledCheap(c *Ctx, impls []*types.Named) {
 	c.Rule("R5.7", "Enabled of every Core implementation reaches no With / field marshaling / hook / encoder / sink call", 4)
+	c.Rule("R5.9", "NewTee keeps every core it is given (no construction-time filtering by what a core enables at that moment)", 1)
+	c5NewTee(c, "R5.9")
 	heavy := func(cl ssa.CallInstruction) string {
 		cc := cl.Common()
 		var f *types.Func
@@ -952,4 +954,139 @@ func isCoreCountOf(v ssa.Value, of ssa.Value, depth int) bool {
 		return n > 0
 	}
 	return false
+}
+
+// c5NewTee: by bounded concrete exploration of NewTee for 0, 1, 2 and 3 cores: no cores give the no-op core, one core
+// gives that core itself, more give a tee over all of them in order - on every path, whatever the cores enable at the
+// time (a branch that enables nothing when the tee is built may be switched on later).
+func c5NewTee(c *Ctx, rule string) {
+	fn := c.Func(CorePath, "NewTee")
+	if !c.Anchor(rule, "zapcore.NewTee", fn != nil && len(fn.Params) == 1) {
+		return
+	}
+	cores := fn.Params[0]
+	resolve := func(st *ConcState, v ssa.Value) ssa.Value {
+		for k := 0; k < 16 && v != nil; k++ {
+			switch x := v.(type) {
+			case *ssa.ChangeType:
+				v = x.X
+				continue
+			case *ssa.MakeInterface:
+				v = x.X
+				continue
+			}
+			nx := st.Step(v)
+			if nx == nil {
+				break
+			}
+			v = nx
+		}
+		return v
+	}
+	elemIndex := func(st *ConcState, v ssa.Value) string {
+		u, ok := resolve(st, v).(*ssa.UnOp)
+		if ok && u.Op == token.MUL {
+			if ia, ok := u.X.(*ssa.IndexAddr); ok {
+				if f, ok := st.SliceOf(ia.X); ok && f.Base == ssa.Value(cores) {
+					if k, ok := st.Int(ia.Index); ok {
+						return itoa(int(f.Lo + k))
+					}
+				}
+			}
+		}
+		return "?" + st.Desc(v)
+	}
+	var bad []string
+	paths := 0
+	for N := int64(0); N <= 3; N++ {
+		n := N
+		seqs, trunc := ConcPaths(fn, ConcCfg{
+			MaxIter:  int(N) + 1,
+			SliceLen: func(p *ssa.Parameter) (int64, bool) { return n, p == cores },
+			Event: func(in ssa.Instruction, st *ConcState) string {
+				switch x := in.(type) {
+				case *ssa.Store:
+					if ia, ok := x.Addr.(*ssa.IndexAddr); ok {
+						if _, isIface := types.Unalias(x.Val.Type()).Underlying().(*types.Interface); isIface {
+							if _, isArr := types.Unalias(deref(ia.X.Type())).Underlying().(*types.Array); !isArr {
+								return "put(" + elemIndex(st, x.Val) + ")"
+							}
+						}
+					}
+				case *ssa.Call:
+					if CallBuiltin(x) == "append" {
+						if sl, ok := types.Unalias(x.Type()).Underlying().(*types.Slice); ok {
+							if _, isIface := types.Unalias(sl.Elem()).Underlying().(*types.Interface); isIface {
+								_, elems := appendParts(x)
+								if len(elems) == 0 {
+									if f, ok := st.SliceOf(x.Call.Args[1]); ok && f.Base == ssa.Value(cores) {
+										var out []string
+										for k := f.Lo; k < f.Hi; k++ {
+											out = append(out, "put("+itoa(int(k))+")")
+										}
+										return strings.Join(out, " ; ")
+									}
+									return "put(?)"
+								}
+								var out []string
+								for _, e := range elems {
+									out = append(out, "put("+elemIndex(st, e)+")")
+								}
+								return strings.Join(out, " ; ")
+							}
+						}
+					}
+				case *ssa.Return:
+					if f, ok := st.SliceOf(x.Results[0]); ok && f.Base == ssa.Value(cores) {
+						return "ret(cores[" + itoa(int(f.Lo)) + ":" + itoa(int(f.Hi)) + "])"
+					}
+					r := resolve(st, x.Results[0])
+					if cl, ok := r.(*ssa.Call); ok && IsCallTo(cl, CorePath+".NewNopCore") {
+						return "ret(nop)"
+					}
+					if i := elemIndex(st, x.Results[0]); !strings.HasPrefix(i, "?") {
+						return "ret(core " + i + ")"
+					}
+					switch r.(type) {
+					case *ssa.MakeSlice, *ssa.Call:
+						return "ret(new)"
+					}
+					return "ret(?" + st.Desc(x.Results[0]) + ")"
+				}
+				return ""
+			},
+		})
+		if trunc || len(seqs) == 0 {
+			c.Und(rule, fn.String(), "keeps-every-core", fn.Pos(), "path exploration incomplete for %d cores", N)
+			return
+		}
+		for _, sq := range seqs {
+			paths++
+			var want []string
+			switch N {
+			case 0:
+				want = []string{"ret(nop)"}
+			case 1:
+				want = []string{"ret(core 0)"}
+			}
+			ok := false
+			if want != nil {
+				ok = sq == want[0]
+			} else {
+				whole := "ret(cores[0:" + itoa(int(N)) + "])"
+				var puts []string
+				for k := int64(0); k < N; k++ {
+					puts = append(puts, "put("+itoa(int(k))+")")
+				}
+				ok = sq == whole || sq == strings.Join(puts, " ; ")+" ; ret(new)"
+			}
+			if !ok {
+				bad = append(bad, itoa(int(N))+" cores: "+sq)
+			}
+		}
+	}
+	if len(bad) > 3 {
+		bad = append(bad[:3:3], "… "+itoa(len(bad)-3)+" more")
+	}
+	c.Check(len(bad) == 0, rule, fn.String(), "keeps-every-core", fn.Pos(), "over %d paths for 0..3 cores: none → the no-op core, one → that core itself, more → a tee over all of them in order, on every path: %v", paths, bad)
 }
